@@ -33,6 +33,25 @@ def main(payload):
                         except ValueError:
                             res.append({'frac': f, 'raised': True})
                     out.append({'wv_el': float(s.wv_el), 'wv_pl': float(s.wv_pl), 'runs': res})
+                elif c['what'] == 'kenamond3':
+                    from exactpack.solvers.kenamond import Kenamond3
+                    s = Kenamond3(**c['params'])
+                    res = []
+                    for pt in c['pts']:
+                        try:
+                            v = s(np.array([pt], float), 0.0)
+                            res.append({'raised': False, 'finite': bool(np.all(np.isfinite(np.asarray(v['burntime'], float)))), 'value': float(np.asarray(v['burntime'], float)[0])})
+                        except ValueError:
+                            res.append({'raised': True})
+                    out.append({'runs': res})
+                elif c['what'] == 'blake':
+                    from exactpack.solvers.blake import Blake
+                    try:
+                        s = Blake(**c['params'])
+                        v = s(np.array([0.15, 0.3, 0.6]), 1.0e-4)
+                        out.append({'accepted': True, 'finite': bool(all(np.all(np.isfinite(np.asarray(v[n], float))) for n in v.dtype.names))})
+                    except ValueError as ex:
+                        out.append({'accepted': False, 'msg': str(ex)[:120]})
                 elif c['what'] == 'nan_at_t0':
                     import importlib
                     cls = getattr(importlib.import_module(c['module']), c['class'])
@@ -75,6 +94,51 @@ def cases(rng, n):
         g = P['geometry']
         pts = [[round(rng.uniform(-2, 2) * R, 3) for _ in range(g)] for _ in range(3)]
         out.append({'what': 'kenamond2', 'params': P, 'pts': pts, 'expected_ok': k2_spec(P)})
+    # Kenamond 3: points strictly inside the inert obstacle (|p| < R, at every depth incl. just inside) are outside the domain; points on or outside it are valid
+    import math
+    for _ in range(max(2, n // 4)):
+        g = rng.choice([2, 3]); R = round(rng.uniform(0.5, 4), 3); D = round(rng.uniform(1, 3), 3)
+        xd = [0.0, round(R * rng.uniform(1.2, 2.5), 3)] + ([0.0] if g == 3 else [])
+        pts, inside = [], []
+        for frac in (0.05, 0.3, 0.6, 0.8, 0.95, 0.999, 1.0005, 1.2, 2.0):
+            th = rng.uniform(0, 2 * math.pi); ph = rng.uniform(0.2, 2.9)
+            rr = frac * R
+            pt = [rr * math.cos(th), rr * math.sin(th)] if g == 2 else [rr * math.sin(ph) * math.cos(th), rr * math.sin(ph) * math.sin(th), rr * math.cos(ph)]
+            pts.append(pt); inside.append(frac < 1)
+        out.append({'what': 'kenamond3', 'params': {'geometry': g, 'R': R, 'D': D, 'x_d': xd, 't_d': round(rng.uniform(-1, 1), 3)}, 'pts': pts, 'inside': inside})
+    # Blake: every pair of moduli must describe a material with positive-definite strain energy (G > 0 and K > 0); K and G are computed here
+    # in exact rational arithmetic from the documented relations; pairs are placed exactly on the boundary K = 0 (nu = -1), G = 0 and on either side
+    from fractions import Fraction as Fr
+    def blake_cases():
+        G = Fr(rng.randrange(1, 9)) * 10 ** 9
+        for kf in (Fr(0), Fr(-1, 10), Fr(1, 10), Fr(1), Fr(5, 3)):
+            K = kf * G
+            yield {'shear_mod': float(G), 'long_mod': float(K + Fr(4, 3) * G)}, (G > 0 and K > 0)
+            yield {'shear_mod': float(G), 'bulk_mod': float(K)}, (G > 0 and K > 0)
+            yield {'shear_mod': float(G), 'lame_mod': float(K - Fr(2, 3) * G)}, (G > 0 and K > 0)
+        K = Fr(rng.randrange(1, 9)) * 10 ** 9
+        for gf in (Fr(0), Fr(-1, 10), Fr(1, 10), Fr(1)):
+            Gs = gf * K
+            yield {'bulk_mod': float(K), 'shear_mod': float(Gs)}, (Gs > 0 and K > 0)
+            yield {'bulk_mod': float(K), 'lame_mod': float(K - Fr(2, 3) * Gs)}, (Gs > 0 and K > 0)
+    def exact_KG(P):
+        q = {k: Fr(v) for k, v in P.items()}            # the floats actually passed, exactly
+        if 'shear_mod' in q:
+            G = q['shear_mod']
+            K = q['long_mod'] - Fr(4, 3) * G if 'long_mod' in q else (q['bulk_mod'] if 'bulk_mod' in q else q['lame_mod'] + Fr(2, 3) * G)
+        else:
+            K = q['bulk_mod']; G = Fr(3, 2) * (K - q['lame_mod'])
+        return K, G
+    fixed = [({'shear_mod': 3.0e9, 'long_mod': 4.0e9}, False), ({'shear_mod': 6.0e9, 'bulk_mod': 0.0}, False), ({'shear_mod': 3.0e9, 'long_mod': 4.5e9}, True)]
+    for P, ok in fixed + list(blake_cases()):
+        K, G = exact_KG(P)
+        big = max(abs(K), abs(G))
+        if (K != 0 and abs(K) < big * Fr(1, 10 ** 6)) or (G != 0 and abs(G) < big * Fr(1, 10 ** 6)):
+            continue                                    # the decimal moduli do not represent the boundary exactly: rounding decides, not the guard
+        ok = G > 0 and K > 0
+        # exactness guard: only cases whose floats represent the rationals exactly enough to decide (all values are multiples of 1e9/3 - check round trip)
+        # every modulus that is given must itself be positive ("Specified value of ... is non-positive")
+        out.append({'what': 'blake', 'params': P, 'expected_ok': bool(ok) and all(v > 0 for v in P.values())})
     for _ in range(max(1, n // 3)):
         out.append({'what': 'piston', 'params': {}, 'xmax': round(rng.uniform(0.5, 2), 3), 'fracs': [0.5, 0.999, 1.001, 1.05, 1.12, 1.17, 1.3, 2.0]})
     for module, cls, params, pts in (('exactpack.solvers.sedov', 'Sedov', {'geometry': 3}, [0.1, 0.5, 1.2]), ('exactpack.solvers.noh', 'Noh', {}, [0.1, 0.5]),
@@ -94,6 +158,20 @@ def oracle(rng, tier, reasons):
             if r['accepted'] != c['expected_ok']:
                 fails.append({'solver': 'Kenamond2', 'params': c['params'], 'documented_admissible': c['expected_ok'], 'constructor_accepted': r['accepted'],
                               'message': r.get('msg'), 'why': 'constructor does not enforce exactly the documented ordering of detonation times / radii'})
+        elif c['what'] == 'kenamond3':
+            for pt, ins, run in zip(c['pts'], c['inside'], r['runs']):
+                if ins and not run['raised'] and run.get('finite'):
+                    fails.append({'solver': 'Kenamond3', 'params': c['params'], 'point': pt, 'returned_burn_time': run.get('value'),
+                                  'why': 'point strictly inside the inert obstacle (|p| < R): documented as outside the domain, a finite burn time was returned'})
+                if (not ins) and (run['raised'] or not run.get('finite')):
+                    fails.append({'solver': 'Kenamond3', 'params': c['params'], 'point': pt, 'observed': run,
+                                  'why': 'valid point outside the obstacle: raised or non-finite'})
+        elif c['what'] == 'blake':
+            if r['accepted'] != c['expected_ok']:
+                fails.append({'solver': 'Blake', 'params': c['params'], 'documented_admissible (G > 0 and K > 0)': c['expected_ok'], 'constructor_accepted': r['accepted'],
+                              'message': r.get('msg'), 'why': 'the constructor must reject exactly the moduli pairs without positive-definite strain energy'})
+            elif r['accepted'] and not r.get('finite'):
+                fails.append({'solver': 'Blake', 'params': c['params'], 'why': 'admissible material, non-finite fields'})
         elif c['what'] == 'piston':
             for run in r['runs']:
                 should_raise = run['frac'] > 1.0
